@@ -910,4 +910,16 @@ theorem clientListOffsets_total (iso : Int) (topics : List (String × List (Int 
 
 end mappings
 
+/-! ## what the decoder expects at each version -/
+
+/-- **response_fields_since**: the versions from which the library's decoder expects the fields of the OffsetFetch /
+ListOffsets / OffsetCommit responses (struct tags, regenerated) are those of the Kafka protocol guide — in particular
+the group-level error code of OffsetFetch is read from v2 on, so a failed lookup is reported at every version that can
+express it -/
+theorem response_fields_since : KV.Gen.Offsets.responseFieldSince = KV.Spec.Offsets.wireSince := by decide
+
+theorem offsetFetch_group_error_visible (v : Int) :
+    KV.Spec.Offsets.offsetFetchTopLevelError KV.Gen.Offsets.responseFieldSince v = decide (2 ≤ v) := by
+  simp [KV.Spec.Offsets.offsetFetchTopLevelError, KV.Gen.Offsets.responseFieldSince, List.lookup]
+
 end KV.Props.C19
